@@ -24,6 +24,7 @@ type Ty struct {
 	Meths  []string  `json:"meths,omitempty"`  // unnamed interface
 	TArgs  []*Ty     `json:"targs,omitempty"`  // generic instantiation
 	Embeds []*Ty     `json:"embeds,omitempty"` // interface: embedded interfaces
+	Var    bool      `json:"var,omitempty"`    // func: the last parameter (a slice type) is variadic
 }
 
 // FieldT is a struct field.
@@ -95,10 +96,17 @@ func (t *Ty) Key(p *Program) string {
 		if d == "" {
 			d = "chan"
 		}
+		if t.Dir == "" && t.Elem.K == "chan" && t.Elem.Dir == "<-chan" {
+			return d + " (" + t.Elem.Key(p) + ")"
+		}
 		return d + " " + t.Elem.Key(p)
 	case "func":
 		var ps []string
-		for _, x := range t.Params {
+		for i, x := range t.Params {
+			if t.Var && i == len(t.Params)-1 {
+				ps = append(ps, "..."+x.Elem.Key(p))
+				continue
+			}
 			ps = append(ps, x.Key(p))
 		}
 		s := "func(" + strings.Join(ps, ", ") + ")"
@@ -164,6 +172,9 @@ func (t *Ty) Str(p *Program) string {
 		d := t.Dir
 		if d == "" {
 			d = "chan"
+		}
+		if t.Dir == "" && t.Elem.K == "chan" && t.Elem.Dir == "<-chan" {
+			return d + " (" + t.Elem.Str(p) + ")"
 		}
 		return d + " " + t.Elem.Str(p)
 	}
